@@ -118,6 +118,17 @@ type frame struct {
 	deferred  [][]reflect.Value  // defer stack
 	recovered interface{}        // to handle panic recover
 	done      reflect.SelectCase // for cancellation of channel operations
+	run       *runState          // evaluation which created the frame
+}
+
+// runState is the state of an evaluation, shared by the frames it creates.
+type runState struct {
+	cancelled uint32 // set atomically when the evaluation is cancelled
+}
+
+// live returns false if the frame was created by an evaluation which was cancelled.
+func (f *frame) live() bool {
+	return f.run == nil || atomic.LoadUint32(&f.run.cancelled) == 0
 }
 
 func newFrame(anc *frame, length int, id uint64) *frame {
@@ -131,6 +142,7 @@ func newFrame(anc *frame, length int, id uint64) *frame {
 	} else {
 		f.done = anc.done
 		f.root = anc.root
+		f.run = anc.run
 	}
 	return f
 }
@@ -148,6 +160,7 @@ func (f *frame) clone() *frame {
 		id:        f.runid(),
 		done:      f.done,
 		debug:     f.debug,
+		run:       f.run,
 	}
 	nf.data = make([]reflect.Value, len(f.data))
 	copy(nf.data, f.data)
@@ -600,6 +613,12 @@ func (interp *Interpreter) EvalWithContext(ctx context.Context, src string) (ref
 // operation short circuit channel. stop may only be called once per
 // invocation of EvalWithContext.
 func (interp *Interpreter) stop() {
+	interp.frame.mutex.RLock()
+	run := interp.frame.run
+	interp.frame.mutex.RUnlock()
+	if run != nil {
+		atomic.StoreUint32(&run.cancelled, 1)
+	}
 	atomic.AddUint64(&interp.id, 1)
 	close(interp.done)
 }
